@@ -158,7 +158,7 @@ pub enum Outcome {
     Other,
 }
 
-#[derive(Default, Clone, Debug)]
+#[derive(Default, Clone, Debug, serde::Serialize, serde::Deserialize)]
 pub struct Stats {
     pub counters: BTreeMap<String, u64>,
 }
@@ -179,7 +179,12 @@ impl Stats {
     }
     pub fn merge(&mut self, o: &Stats) {
         for (k, v) in &o.counters {
-            self.add(k, *v);
+            if k.ends_with("_max") {
+                let cur = self.get(k);
+                self.counters.insert(k.clone(), cur.max(*v));
+            } else {
+                self.add(k, *v);
+            }
         }
     }
 }
